@@ -17,7 +17,7 @@ func init() {
 			"Non-trivial: P yields at least one item; distinct by (P, C, document, decoding)",
 		Run:    runC10,
 		Replay: replayC10,
-		MinExercised: map[string]int64{"kept-iff-true": 5000, "subsequence": 5000, "hard-aborts": 100, "conjunction": 1000},
+		MinExercised: map[string]int64{"model": 5000, "kept-iff-true": 5000, "subsequence": 5000, "hard-aborts": 100, "conjunction": 1000},
 		Assumptions: []string{
 			"C[@:=$] is produced on the abstract tree: @ at filter depth 0 becomes $, and $ becomes the variable $root bound to the document",
 			"items are compared by value; paths that expand object members get single-member objects (member order is open)",
@@ -112,6 +112,26 @@ func checkFilter(c *h.Ctx, k *c10Case) {
 	if op.Class != h.OK {
 		c.Skip("kept-iff-true", "P-fails")
 		return
+	}
+	// independent reference: the per-item checks below run the same predicate code as the
+	// filter, so the filter's result is also compared with the reference evaluator
+	{
+		ec := &ExecCase{Text: ftxt, P: pf, Doc: k.doc, UseNum: k.useNum, Vars: k.vars, TZ: k.tz}
+		verdict, mfeat, detail := modelVerdict(ec, of)
+		switch {
+		case verdict == "held":
+			c.Held("model")
+		case strings.HasPrefix(verdict, "skip:"):
+			c.Skip("model", strings.TrimPrefix(verdict, "skip:"))
+		default:
+			for _, one := range strings.Split(mfeat["cause"], "+") {
+				f := h.F("cause", one)
+				if one == "unexplained" {
+					f = mfeat
+				}
+				c.Violate("model", f, "Query(P ?(C)): "+detail, cs)
+			}
+		}
 	}
 	items := unwrap1(op.Items, k.lax)
 	if len(items) > 0 {
@@ -284,6 +304,11 @@ func runC10(c *h.Ctx) {
 		if !lax && containsTopLevelAny(prefix) {
 			// below .** the condition runs with structural errors ignored; the stand-alone check does not
 			c.Skip("kept-iff-true", "strict-prefix-has-recursive-descent")
+			continue
+		}
+		if (exposesOrder(&gen.Path{Root: prefix}) || exposesOrder(&gen.Path{Root: whole})) && (hasMethod(prefix, "keyvalue") || hasMethod(whole, "keyvalue")) {
+			// the triples generated by .keyvalue() have three members: expanding them is order-dependent
+			c.Skip("kept-iff-true", "member-order-open")
 			continue
 		}
 		if idsFlow(prefix) || idExposed(whole) {
